@@ -66,7 +66,8 @@ def solve_knapsack(
     int_capacity, scale = _to_int_capacity(capacity, weights)
 
     # Scale weights
-    int_weights = [max(1, int(w * scale)) if w > 0 else 0 for w in weights]
+    # Truncate like the capacity: rounding a tiny weight up to 1 could hide an item that fits
+    int_weights = [int(w * scale) for w in weights]
 
     # DP table: dp[w] = max value achievable with capacity w
     dp = [0.0] * (int_capacity + 1)
